@@ -46,7 +46,22 @@ def transitions(ctx, ckey):
             if flag_place(c.term, "ignore") and c.term[0] == "deref":
                 ign = (c.fact == ("eq", True))
         r = p.end[1]
-        if const_of(r) is not None and isinstance(const_of(r), bool):
+
+        def under(t, iv):
+            """the boolean value of t when the flag is iv: constants, `!`, and reads of the flag itself (e.g. `!mem::take(&mut ignore)`)"""
+            t = strip_refs(t) if not (isinstance(t, tuple) and t and t[0] == "deref") else t
+            if const_of(t) in (True, False):
+                return const_of(t)
+            if isinstance(t, tuple) and t and t[0] == "unop" and t[1] == "Not":
+                v = under(t[2], iv)
+                return None if v is None else (not v)
+            if isinstance(t, tuple) and t and t[0] == "deref" and flag_place(t, "ignore") and not is_call(t):
+                return iv
+            return None
+        flag_valued = ign is None and under(r, False) is not None and under(r, True) is not None and under(r, False) != under(r, True)
+        if flag_valued:
+            emit = "by-flag"
+        elif const_of(r) is not None and isinstance(const_of(r), bool):
             emit = const_of(r)
         elif is_none(r):
             emit = False
@@ -63,7 +78,7 @@ def transitions(ctx, ckey):
                 pfx = e.value
         for k in kinds:
             for iv in ((False, True) if ign is None else (ign,)):
-                table.setdefault((k, iv), []).append(dict(emit=emit, ign_out=(iv if ign_out == "same" else ign_out), prefix=pfx, path=p))
+                table.setdefault((k, iv), []).append(dict(emit=(under(r, iv) if emit == "by-flag" else emit), ign_out=(iv if ign_out == "same" else ign_out), prefix=pfx, path=p))
     return table
 
 
